@@ -144,7 +144,17 @@ fn run(ctx: &mut Ctx) {
             let pre = model.clone();
             // ---- rejected request
             if r.chance(1, 7) {
-                let (text, why) = upd::gen_rejected(&mut r, &model);
+                let planted = if r.coin() {
+                    let mut ug = upd::UGen { r: &mut r, n_ent: vocab.n_ent, n_pred: vocab.n_pred, n_num: vocab.n_num, n_graph: vocab.n_graph };
+                    let u = ug.gen(&model);
+                    upd::plant_illegal(&mut r, &u).map(|(u2, why)| (upd::print_update(&u2), why))
+                } else {
+                    None
+                };
+                let (text, why) = match planted {
+                    Some((t, w)) => (t, w),
+                    None => upd::gen_rejected(&mut r, &model),
+                };
                 history.push(format!("[rejected: {}] {}", why, text));
                 ctx.add_evals(1);
                 let res = guard(|| execute_sparql_update(&text, &mut db));
